@@ -568,7 +568,11 @@ Inductive op :=
 | HoldInc (rk : string)
 | HoldDec (rk : string)
 | EndBlock
-| NstBalance (staker asset : string) (x : Z).   (* DelegationKeeper.UpdateNSTBalance *)
+| NstBalance (staker asset : string) (x : Z)    (* DelegationKeeper.UpdateNSTBalance *)
+| UpdateTokenMeta (asset : string).            (* AssetsKeeper.UpdateStakingAssetMetaInfo (the gateway's updateToken): rewrites the
+                                                  asset's meta information only; an unregistered asset is rejected *)
+
+Definition has_key_tot (s : st) (a : string) : bool := match sget (tot s) a with Some _ => true | None => false end.
 
 Definition of_opt (s : st) (o : option st) : st * res :=
   match o with Some s' => (s', ROk) | None => (s, RErr) end.
@@ -586,6 +590,7 @@ Definition step (s : st) (o : op) : st * res :=
   | HoldDec rk => hold_dec s rk
   | EndBlock => (end_block s, ROk)
   | NstBalance a b x => of_opt s (nst_balance s a b x)
+  | UpdateTokenMeta a => (s, if has_key_tot s a then ROk else RErr)
   end.
 
 Definition run (ops : list op) (s : st) : st := fold_left (fun s o => fst (step s o)) ops s.
